@@ -327,3 +327,7 @@ def run(ctx: Ctx):
     ctx.cov["traces_validated_against_impl"] += len(recs) * 3 + len(gl) + len(tl)
     ctx.sample({k: recs[7][k] for k in ("d", "x", "h", "c")})
     ctx.sample({k: recs[-7][k] for k in ("d", "x", "h", "c")})
+    # ---- code -> spec: recorded calls on larger coordinates, validated by TLC against Trace_Ops.tla
+    from ..optrace import run_optrace
+
+    run_optrace(ctx, ['apply_point', 'apply_hyper'])
